@@ -66,11 +66,17 @@ def snake_simple(s):
     return s.replace("-", "_").lower()
 
 
-def classify(backend, tok, allexp_names):
+ASYNC_FORCED = "async-abi-forced-on-sync-function"
+
+
+def classify(backend, tok, allexp_names, allimp=frozenset()):
     """stable witness class of a declaration that the spec rejects"""
     p = tok.split(":")
     if p[0] == "E":
         name = unhx(p[1])
+        for pre in ("[callback][async-lift]", "[async-lift]"):
+            if name.startswith(pre) and name[len(pre):] in allexp_names:
+                return ASYNC_FORCED
         if backend == "c" and "#[dtor]" in name:
             pre, r = name.split("#[dtor]", 1)
             if any(n.startswith(pre + "#[dtor]") and snake_simple(n.split("#[dtor]", 1)[1]) == r and n != name for n in allexp_names):
@@ -85,6 +91,13 @@ def classify(backend, tok, allexp_names):
     name = unhx(p[2])
     if backend == "csharp" and FS_RE.match(name):
         return "csharp-future-stream-intrinsic-names"
+    if name.startswith("[async-lower]") and (p[1], name[len("[async-lower]"):]) in allimp:
+        return ASYNC_FORCED
+    if name.startswith("[task-return]") and unhx(p[1]).startswith("[export]"):
+        m = unhx(p[1])[len("[export]"):]
+        f = name[len("[task-return]"):]
+        if (f if m == "$root" else m + "#" + f) in allexp_names:
+            return ASYNC_FORCED
     return f"import-not-in-world:{backend}"
 
 
@@ -308,14 +321,15 @@ def run(c):
             if len(stC["first_mismatches"]) < 6:
                 stC["first_mismatches"].append({"case": cid, "backend": b, "variant": v, "problems": problems[:4], "wit": src if origin != "tests/codegen" else src})
         # ---- D: the property on the implementation's declarations
-        allexp_names = [unhx(t.split(":")[1]) for t in allE]
+        allexp_names = {unhx(t.split(":")[1]) for t in allE}
+        allimp = {(t.split(":")[1], unhx(t.split(":")[2])) for t in allI}
         fails = []
         for t, x, vd in zip(toks, good, verdicts):
             if vd == "ok": continue
             if x["kind"] == "I" and not x["referenced"]:
                 c.cov.setdefault("unreferenced_misnamed_imports", collections.Counter())[f"{b}:{FS_RE.match(x['name']).group(3) if FS_RE.match(x['name']) else x['name'][:30]}"] += 1
                 continue
-            fails.append((classify(b, t, allexp_names), "declared " + show_token(t) + " is not assigned by the component model to any item of the world" + (" (silently ignored export)" if t[0] == "E" else "")))
+            fails.append((classify(b, t, allexp_names, allimp), "declared " + show_token(t) + " is not assigned by the component model to any item of the world" + (" (silently ignored export)" if t[0] == "E" else "")))
         for r in req - set(ext_exports):
             fails.append((f"required-export-missing:{b}", "required " + show_token(r) + " is not exported"))
         d["fails"] = fails
@@ -336,10 +350,10 @@ def run(c):
     for i, a in zip(enc_idx, eans):
         d, m = parsed[i], meta[i]
         stE["cases"] += 1; c.evaluations += 1
-        import_fail = any(k.startswith("import-not-in-world") or k == "csharp-future-stream-intrinsic-names" for k, _ in d.get("fails", []))
-        missing_req = any(k.startswith("required-export-missing") for k, _ in d.get("fails", []))
+        reject = any(k.startswith("import-not-in-world") or k.startswith("required-export-missing") or
+                     k in ("csharp-future-stream-intrinsic-names", ASYNC_FORCED) for k, _ in d.get("fails", []))
         accepted = a.startswith("ok")
-        expect = not (import_fail or missing_req)
+        expect = not reject
         if accepted != expect:
             stE["mismatches"] += 1
             if len(stE["first_mismatches"]) < 5:
